@@ -82,19 +82,42 @@ fn gen_stream_part(rng: &mut Rng, sc: &ThreadScenario, pal: &[u8], s: usize, all
     let pats: Vec<Vec<u8>> = spec.patterns.iter().filter(|p| !p.is_empty()).cloned().collect();
     let pats = if pats.is_empty() { vec![vec![pal[0]]] } else { pats };
     let maxlen = pats.iter().map(|p| p.len()).max().unwrap();
-    let spare = spare_choices(rng, maxlen);
+    let long = maxlen >= 512;
+    let spare = if long {
+        *rng.pick(&[None, None, Some(1), Some(3), Some(maxlen)])
+    } else {
+        spare_choices(rng, maxlen)
+    };
     let cap = maxlen + spare.unwrap_or(3).max(1);
-    let target = rng.range(0, (4 * cap).min(160));
+    let target = if long {
+        // shorter than, around and well beyond the longest pattern
+        match rng.below(4) {
+            0 => rng.range(0, 200),
+            1 => rng.range(maxlen / 2, maxlen + 10),
+            _ => rng.range(maxlen + 1, 3 * maxlen),
+        }
+    } else {
+        rng.range(0, (4 * cap).min(160))
+    };
     let mut planted = Vec::new();
-    let stream = gen_stream(rng, pal, &pats, target, false, &mut planted);
+    let mut stream = gen_stream(rng, pal, &pats, target, false, &mut planted);
+    if long && stream.len() > maxlen && rng.chance(2, 3) {
+        let lp = pats.iter().max_by_key(|p| p.len()).unwrap();
+        let at = rng.below(stream.len() - lp.len() + 1);
+        stream[at..at + lp.len()].copy_from_slice(lp);
+    }
     let n = stream.len() + 4;
-    let reads: Vec<ReadStep> = match rng.below(4) {
+    let reads: Vec<ReadStep> = match if long { 0 } else { rng.below(4) } {
         0 => vec![],
         1 => (0..n).map(|_| ReadStep::Bytes(rng.range(1, 3))).collect(),
         2 => (0..n).map(|i| if i % 2 == 0 { ReadStep::Bytes(1) } else { ReadStep::Fill }).collect(),
         _ => (0..n).map(|_| ReadStep::Bytes(rng.geometric(10))).collect(),
     };
-    let default_read = *rng.pick(&[ReadStep::Bytes(1), ReadStep::Fill, ReadStep::Half]);
+    let default_read = if long {
+        *rng.pick(&[ReadStep::Fill, ReadStep::Half, ReadStep::Bytes(700), ReadStep::Bytes(4096)])
+    } else {
+        *rng.pick(&[ReadStep::Bytes(1), ReadStep::Fill, ReadStep::Half])
+    };
     let kind = *rng.pick(&[StreamOp::Find, StreamOp::Find, StreamOp::Replace, StreamOp::ReplaceWith]);
     let mut faults = Vec::new();
     let rcalls = stream.len().max(1);
@@ -312,6 +335,7 @@ pub fn gen_thread(class: &str, seed: u64, idx: u64) -> ThreadScenario {
         stall: None,
         decisions: None,
     };
+    let long_patterns = class != "miri" && r.chance(1, 10);
     for i in 0..nsearch {
         let mut s = gen_searcher(r, &pal);
         if i == 0 {
@@ -321,6 +345,22 @@ pub fn gen_thread(class: &str, seed: u64, idx: u64) -> ThreadScenario {
             s.patterns.retain(|p| !p.is_empty());
             if s.patterns.is_empty() {
                 s.patterns.push(vec![pal[0]]);
+            }
+        }
+        if i == 0 && class != "miri" && long_patterns {
+            // a searcher with a long pattern (>= 1 KiB): stream searches with the
+            // shipped capacity formula, real rolls, buffers sized from pattern lengths
+            let l = *r.pick(&[1024usize, 1100, 1500, 2048, 4096]);
+            let long: Vec<u8> = (0..l).map(|_| *r.pick(&pal)).collect();
+            s.patterns.truncate(2);
+            s.patterns.insert(r.below(s.patterns.len() + 1), long);
+            if s.opts.surface == Surface::Dfa {
+                s.opts.surface = Surface::Top;
+            }
+            if s.opts.kind == Kind::Dfa || s.opts.kind == Kind::Auto {
+                // (Auto would pick a DFA with thousands of states: every fresh
+                // reference build would cost tens of milliseconds)
+                s.opts.kind = *r.pick(&[Kind::Noncontiguous, Kind::Contiguous]);
             }
         }
         if class == "miri" {
@@ -366,9 +406,24 @@ pub fn gen_thread(class: &str, seed: u64, idx: u64) -> ThreadScenario {
         let h = gen_stream(r, &pal, &pats, target, spec.opts.case_insensitive, &mut planted);
         sc.fixed_hays.push(h);
     }
+    if long_patterns {
+        let pats: Vec<Vec<u8>> = sc.searchers[0].patterns.clone();
+        let maxl = pats.iter().map(|p| p.len()).max().unwrap_or(1);
+        let mut planted = Vec::new();
+        let target = r.range(maxl, 3 * maxl);
+        let mut h = gen_stream(r, &pal, &pats, target, false, &mut planted);
+        let longp = pats.iter().max_by_key(|p| p.len()).unwrap().clone();
+        if h.len() >= longp.len() {
+            let at = r.below(h.len() - longp.len() + 1);
+            h[at..at + longp.len()].copy_from_slice(&longp);
+        }
+        sc.fixed_hays.push(h);
+    }
     let (nthreads, ops_lo, ops_hi) = match class {
         // mostly short histories; some long and a few very long ones on the same
         // long-lived searcher (adaptive heuristics / counters with thresholds)
+        // long-pattern scenarios carry kilobytes per operation: keep the scripts short
+        "hist" if long_patterns => (1, 8, 30),
         "hist" => match r.weighted(&[80, 15, 5]) {
             0 => (1, 12, 40),
             1 => (1, 100, 300),
@@ -376,7 +431,7 @@ pub fn gen_thread(class: &str, seed: u64, idx: u64) -> ThreadScenario {
         },
         "miri" => (r.range(2, 3), 1, 3),
         _ => {
-            if r.chance(1, 10) {
+            if r.chance(1, 10) && !long_patterns {
                 (r.range(2, 3), 20, 60)
             } else {
                 (r.range(2, 4), 2, 8)
@@ -456,7 +511,13 @@ pub fn gen_thread(class: &str, seed: u64, idx: u64) -> ThreadScenario {
         sc.change_points.sort();
     } else {
         sc.policy = Policy::Random;
-        sc.density = *r.pick(&[1u64, 1, 2, 4, 8, 16, 64]);
+        sc.density = if long_patterns {
+            // kilobytes per operation: a context switch (a real thread hand-off)
+            // at every few yield points would take seconds per run
+            *r.pick(&[64u64, 256, 1024])
+        } else {
+            *r.pick(&[1u64, 1, 2, 4, 8, 16, 64])
+        };
     }
     if nthreads > 1 && r.chance(3, 20) {
         sc.stall = Some((r.below(nthreads), r.range(1, 200) as u64));
